@@ -68,7 +68,7 @@ package atree
 //@ func (a *ArrayDataSlab) Set(storage, address, index, value) (prev, err)  serves C01 C03 C05 C06 C18
 //@   requires wfADS(a) && storage != nil && value != nil && a.header.size <= maxThreshold
 //@   assume valueRoot(value) != a because "frame assumption F: the value being stored is not the container that owns slab a"
-//@   ensures[C18] index >= len(old(a.elements)) ==> err != nil && isUser(err) && sameADS(a) && sto == old(sto) && touched == old(touched)
+//@   ensures[C01 C09 C18] index >= len(old(a.elements)) ==> err != nil && isUser(err) && sameADS(a) && sto == old(sto) && touched == old(touched)
 //@   ensures[C01] err == nil ==> index < len(old(a.elements)) && prev == old(a.elements)[index] && len(a.elements) == len(old(a.elements)) &&
 //@        (forall k :: 0 <= k && k < len(a.elements) && k != index ==> a.elements[k] == old(a.elements)[k])
 //@   ensures[C05] err == nil ==> bs(a.elements[index]) <= maxInlineArrayElementSize
@@ -83,7 +83,7 @@ package atree
 //@ func (a *ArrayDataSlab) Insert(storage, address, index, value) (err)  serves C01 C03 C05 C06 C18
 //@   requires wfADS(a) && storage != nil && value != nil && a.header.size <= maxThreshold && a.header.count < 4294967295
 //@   assume valueRoot(value) != a because "frame assumption F: the value being stored is not the container that owns slab a"
-//@   ensures[C18] index > len(old(a.elements)) ==> err != nil && isUser(err) && sameADS(a) && sto == old(sto) && touched == old(touched)
+//@   ensures[C01 C09 C18] index > len(old(a.elements)) ==> err != nil && isUser(err) && sameADS(a) && sto == old(sto) && touched == old(touched)
 //@   ensures[C01] err == nil ==> index <= len(old(a.elements)) && len(a.elements) == len(old(a.elements)) + 1 &&
 //@        (forall k :: 0 <= k && k < index ==> a.elements[k] == old(a.elements)[k]) &&
 //@        (forall k :: index < k && k < len(a.elements) ==> a.elements[k] == old(a.elements)[k-1])
@@ -97,7 +97,7 @@ package atree
 
 //@ func (a *ArrayDataSlab) Remove(storage, index) (v, err)  serves C01 C03 C06 C18
 //@   requires wfADS(a) && storage != nil
-//@   ensures[C18] index >= len(old(a.elements)) ==> err != nil && isUser(err) && sameADS(a) && sto == old(sto) && touched == old(touched)
+//@   ensures[C01 C09 C18] index >= len(old(a.elements)) ==> err != nil && isUser(err) && sameADS(a) && sto == old(sto) && touched == old(touched)
 //@   ensures[C01] err == nil ==> index < len(old(a.elements)) && v == old(a.elements)[index] && len(a.elements) == len(old(a.elements)) - 1 &&
 //@        (forall k :: 0 <= k && k < index ==> a.elements[k] == old(a.elements)[k]) &&
 //@        (forall k :: index <= k && k < len(a.elements) ==> a.elements[k] == old(a.elements)[k+1])
